@@ -619,6 +619,7 @@ iface Log.Delete
     ensures[set]     err == nil ==> forall o int64 :: gLive[self][o] <==> old(gLive[self][o]) && !gDeleted[self][o]
     ensures[only]    err == nil ==> forall o int64 :: gDeleted[self][o] ==> has(offsets, o) && old(gLive[self][o])
     // and reports exactly D, in offset order, with the size of what it removed
+    ensures[fresh]   ret0 == nil || fresh(region(ret0))
     ensures[sorted]  err == nil ==> forall i, j :: 0 <= i && i < j && j < len(ret0) ==> ret0[i].Offset < ret0[j].Offset
     ensures[reported] err == nil ==> forall j :: 0 <= j && j < len(ret0) ==> gDeleted[self][ret0[j].Offset]
     ensures[all]     err == nil ==> forall o int64 :: gDeleted[self][o] ==> (exists j :: 0 <= j && j < len(ret0) && ret0[j].Offset == o)
@@ -637,27 +638,28 @@ func DeleteMulti
     assigns gLive, gCount, gTotal, gDeleted
     ensures[wf]       absWf(l) && gNext[l] == old(gNext[l])
     // removes no message other than those it returns; the returned ones were live and requested
-    ensures[reported] forall j :: 0 <= j && j < len(ret0) ==> has(offsets, ret0[j].Offset) && old(gLive[l][ret0[j].Offset]) && !gLive[l][ret0[j].Offset]
+    ensures[reported] forall j :: 0 <= j && j < len(ret0) ==> had(offsets, ret0[j].Offset) && old(gLive)[l][ret0[j].Offset] && !gLive[l][ret0[j].Offset]
     ensures[only]     forall o int64 :: old(gLive[l][o]) && !gLive[l][o] ==> (exists j :: 0 <= j && j < len(ret0) && ret0[j].Offset == o)
     ensures[keeps]    forall o int64 :: gLive[l][o] ==> old(gLive[l][o])
     // over a set of live offsets it removes all of them
-    ensures[all]      err == nil && (forall o int64 :: has(offsets, o) ==> old(gLive[l][o])) ==> forall o int64 :: has(offsets, o) ==> !gLive[l][o]
+    ensures[all]      err == nil && (forall o int64 :: had(offsets, o) ==> old(gLive[l][o])) ==> forall o int64 :: had(offsets, o) ==> !gLive[l][o]
     ensures[input]    forall o int64 :: has(offsets, o) <==> old(has(offsets, o))
     loop 1
       invariant[wf]       absWf(l) && gNext[l] == old(gNext[l]) && (offsets == nil || remainingOffsets != offsets)
       invariant[input]    forall o int64 :: has(offsets, o) <==> old(has(offsets, o))
-      invariant[remaining] forall o int64 :: has(remainingOffsets, o) ==> has(offsets, o)
-      invariant[pending]  forall o int64 :: has(offsets, o) && !has(remainingOffsets, o) ==> !gLive[l][o]
-      invariant[liveleft] (forall o int64 :: has(offsets, o) ==> old(gLive[l][o])) ==> (forall o int64 :: has(remainingOffsets, o) ==> gLive[l][o])
-      invariant[reported] forall j :: 0 <= j && j < len(deletedMessages) ==> has(offsets, deletedMessages[j].Offset) && old(gLive[l][deletedMessages[j].Offset]) && !gLive[l][deletedMessages[j].Offset]
+      invariant[remaining] forall o int64 :: has(remainingOffsets, o) ==> had(offsets, o)
+      invariant[pending]  forall o int64 :: had(offsets, o) && !has(remainingOffsets, o) ==> !gLive[l][o]
+      invariant[liveleft] (forall o int64 :: had(offsets, o) ==> old(gLive[l][o])) ==> (forall o int64 :: has(remainingOffsets, o) ==> gLive[l][o])
+      invariant[reported] forall j :: 0 <= j && j < len(deletedMessages) ==> had(offsets, deletedMessages[j].Offset) && old(gLive)[l][deletedMessages[j].Offset] && !gLive[l][deletedMessages[j].Offset]
       invariant[only]     forall o int64 :: old(gLive[l][o]) && !gLive[l][o] ==> (exists j :: 0 <= j && j < len(deletedMessages) && deletedMessages[j].Offset == o)
       invariant[keeps]    forall o int64 :: gLive[l][o] ==> old(gLive[l][o])
     loop 2
       invariant[idx]      -1 <= rangeindex && rangeindex < len(deleted) && remainingOffsets != nil && remainingOffsets != offsets
-      invariant[sub]      forall o int64 :: has(remainingOffsets, o) ==> has(offsets, o)
+      invariant[sub]      forall o int64 :: has(remainingOffsets, o) ==> had(offsets, o)
       invariant[removed]  forall j :: 0 <= j && j <= rangeindex ==> !has(remainingOffsets, deleted[j].Offset)
-      invariant[rest]     forall o int64 :: has(offsets, o) && !has(remainingOffsets, o) ==> !gLive[l][o]
-      invariant[liveleft] (forall o int64 :: has(offsets, o) ==> old(gLive[l][o])) ==> (forall o int64 :: has(remainingOffsets, o) && gDeleted[l][o] ==> (exists j :: rangeindex < j && j < len(deleted) && deleted[j].Offset == o))
+      invariant[rest]     forall o int64 :: had(offsets, o) && !has(remainingOffsets, o) ==> !gLive[l][o]
+      invariant[liveleft] (forall o int64 :: had(offsets, o) ==> old(gLive[l][o])) ==> (forall o int64 :: has(remainingOffsets, o) && gDeleted[l][o] ==> (exists j :: rangeindex < j && j < len(deleted) && deleted[j].Offset == o))
       invariant[input]    forall o int64 :: has(offsets, o) <==> old(has(offsets, o))
+      invariant[stilllive] (forall o int64 :: had(offsets, o) ==> old(gLive[l][o])) ==> (forall o int64 :: has(remainingOffsets, o) ==> gLive[l][o] || gDeleted[l][o])
 
 @*/
